@@ -706,6 +706,10 @@ func Recv[T any](ch <-chan T) T {
 	return v
 }
 
+// OnTrySend, when set, is asked at every non-blocking send (a select whose branches are sends plus a
+// default) of a managed goroutine; returning true makes the send find its queue full (default branch).
+var OnTrySend func(pos string) bool
+
 // Select performs a select statement; returns the index of the case taken, -1 for default.
 func Select(pos string, hasDefault bool, cases ...SelCase) int {
 	s := cur()
@@ -728,8 +732,16 @@ func Select(pos string, hasDefault bool, cases ...SelCase) int {
 		s.die()
 	}
 	p := &pending{kind: opChan, hasDefault: hasDefault, pos: pos}
+	allSends := len(cases) > 0
 	for _, c := range cases {
-		p.ops = append(p.ops, c.op())
+		o := c.op()
+		allSends = allSends && o.isSend
+		p.ops = append(p.ops, o)
+	}
+	// Environment answer "the queue is full": a non-blocking send (select with a default branch whose other
+	// branches are all sends) may find its channel full whenever the consumer is slow. OnTrySend decides.
+	if hasDefault && allSends && OnTrySend != nil && OnTrySend(pos) {
+		return -1
 	}
 	s.block(p)
 	for i, c := range cases {
